@@ -178,3 +178,69 @@ def RSt.result (s : RSt) : Option Res :=
   | none => if s.started then none else some .shutdown
 
 end GV.Model.BlockFetch
+
+/-! ### two calls on one connection: the busy lock
+
+  `GetBlockRange` takes the busy lock, sets callback mode and keeps the lock until its batch
+  ends (handleBatchDone / the NoBlocks error path / a handler error release it). `GetBlock`
+  first takes the same lock (`acquireBusy`), only then flips the mode flag and sends its
+  request. The range request is already on the wire when the second caller starts (as in the
+  harness). Whatever the first batch leaves unread is seen by the second call first. -/
+namespace GV.Model.BlockFetch
+
+inductive GPhase
+  | idle                 -- GetBlock not called yet
+  | wantLock             -- blocked in acquireBusy
+  | active (s : St)      -- holds the lock, request sent; `s` as in the single-call model
+deriving Repr, DecidableEq
+
+structure TSt where
+  r : RSt                -- the range call / its batch (callback mode)
+  rem1 : List Ev         -- server messages answering the range request, not yet handled
+  lockR : Bool           -- the range call holds the busy lock
+  g : GPhase
+  rem2 : List Ev         -- server messages answering the single-block request, not yet handled
+deriving Repr, DecidableEq
+
+def TSt.init (ev1 ev2 : List Ev) : TSt :=
+  { r := RSt.init, rem1 := ev1, lockR := true, g := .idle, rem2 := ev2 }
+
+inductive TAct
+  | gBegin      -- another goroutine calls GetBlock
+  | gLock       -- it gets the busy lock, switches to channel mode and sends its request
+  | deliverR    -- the receive loop handles the next message of the range batch
+  | deliverG    -- … of the single-block request
+deriving Repr, DecidableEq
+
+/-- GetBlock on a protocol that has already failed: SendMessage reports the shutdown -/
+def deadSt : St := { ps := .idle, caller := .ret .shutdown, stuck := false, dead := true }
+
+def tstep (want : Nat) (t : TSt) : TAct → Option TSt
+  | .gBegin => match t.g with
+    | .idle => some { t with g := .wantLock }
+    | _ => none
+  | .gLock => match t.g with
+    | .wantLock =>
+      if t.lockR then none
+      else some { t with g := .active (if t.r.dead then deadSt else St.init),
+                         rem1 := [], rem2 := t.rem1 ++ t.rem2 }
+    | _ => none
+  | .deliverR =>
+    if t.lockR then
+      match t.rem1 with
+      | [] => none
+      | e :: rest =>
+        let r' := rstep t.r e
+        some { t with r := r', rem1 := rest, lockR := !(r'.ps == .idle) && !r'.dead }
+    else none
+  | .deliverG => match t.g, t.rem2 with
+    | .active s, e :: rest => some { t with g := .active (step want s e), rem2 := rest }
+    | _, _ => none
+
+def trun (want : Nat) (t : TSt) : List TAct → Option TSt
+  | [] => some t
+  | a :: as => match tstep want t a with
+    | some t' => trun want t' as
+    | none => none
+
+end GV.Model.BlockFetch
